@@ -5,6 +5,7 @@ import (
 	"fmt"
 	"os"
 	"path/filepath"
+	"regexp"
 	"runtime"
 	"sort"
 	"strings"
@@ -114,6 +115,79 @@ func Run(tier string, seed int64, outDir string) *common.Meta {
 		{"go-critic-race", []string{"check", "-enableAll", "-concurrency=64", "./..."}, []string{"GOMAXPROCS=8"}},
 		{"go-critic-analysis-race", []string{"-enable-all", "-disable=", "./..."}, []string{"GOMAXPROCS=16"}},
 		{"go-critic-analysis-race", []string{"-enable-all", "-disable=", "-debug=p", "./..."}, []string{"GOMAXPROCS=4"}},
+	}
+	// 2b. every checker's own examples (all warn paths the maintainers wrote down), each directory a package of a
+	// second module, under the race detector and across -concurrency values
+	{
+		td := filepath.Join(outDir, "ws4td")
+		os.RemoveAll(td)
+		defer os.RemoveAll(td)
+		common.WriteFile(filepath.Join(td, "go.mod"), "module ws4td\n\ngo 1.21\n")
+		ents, _ := os.ReadDir(filepath.Join(common.RepoDir, "checkers", "testdata"))
+		nd := 0
+		for _, e := range ents {
+			if !e.IsDir() || strings.HasPrefix(e.Name(), "_") {
+				continue
+			}
+			fs, _ := filepath.Glob(filepath.Join(common.RepoDir, "checkers", "testdata", e.Name(), "*.go"))
+			for _, f := range fs {
+				data, err := os.ReadFile(f)
+				if err == nil {
+					// (a package clause ending in _test in ordinary files makes the CLI's loader panic: C19's subject)
+					src := regexp.MustCompile(`(?m)^package (\w+)_test$`).ReplaceAllString(string(data), "package ${1}_td")
+					common.WriteFile(filepath.Join(td, e.Name(), filepath.Base(f)), src)
+				}
+			}
+			nd++
+		}
+		meta.Distribution["example_directories_under_race_detector"] = nd
+		var seq string
+		tdConcs := []int{1, 7}
+		if tier == "quick" {
+			tdConcs = []int{1}
+		}
+		for _, c := range tdConcs {
+			args := []string{"check", "-enableAll", fmt.Sprintf("-concurrency=%d", c), "./..."}
+			_, stderr, code, err := common.RunSplit(600*time.Second, td, env, filepath.Join(bin, "go-critic"), args...)
+			runs++
+			if err != nil {
+				meta.Fail("C04/go-critic/hang", err.Error(), args)
+				continue
+			}
+			key := fmt.Sprintf("%d\n%s", code, stderr)
+			if c == 1 {
+				seq = key
+			} else if key != seq {
+				meta.Fail("C04/go-critic/output-depends-on-concurrency", fmt.Sprintf("checkers' own examples: output with -concurrency=%d differs from -concurrency=1: %s", c, firstDiff(seq, key)), map[string]interface{}{"args": args, "workspace": "copies of checkers/testdata/*"})
+			}
+		}
+		tdRuns := []struct {
+			exe  string
+			args []string
+		}{
+			{"go-critic-race", []string{"check", "-enableAll", "-concurrency=8", "./..."}},
+			{"go-critic-analysis-race", []string{"-enable-all", "-disable=", "./..."}},
+		}
+		if tier == "quick" {
+			tdRuns = tdRuns[:1] // the analysis driver over these packages: thorough tier
+		}
+		for _, r := range tdRuns {
+			_, stderr, code, err := common.RunSplit(900*time.Second, td, append(append([]string(nil), env...), "GOMAXPROCS=8"), filepath.Join(bin, r.exe), r.args...)
+			runs++
+			if err != nil {
+				meta.Fail("C04/"+r.exe+"/hang", err.Error(), r.args)
+				continue
+			}
+			if strings.Contains(stderr, "WARNING: DATA RACE") {
+				meta.Fail("C04/"+r.exe+"/data-race", fmt.Sprintf("%s %v over the checkers' own examples reports a data race: %s", r.exe, r.args, raceExcerpt(stderr)), map[string]interface{}{"args": r.args, "workspace": "copies of checkers/testdata/*", "report": raceExcerpt(stderr)})
+				continue
+			}
+			if r.exe == "go-critic-race" {
+				if key := fmt.Sprintf("%d\n%s", code, stderr); key != seq {
+					meta.Fail("C04/go-critic/output-depends-on-schedule", "checkers' own examples: race-enabled run prints different output than -concurrency=1: "+firstDiff(seq, key), r.args)
+				}
+			}
+		}
 	}
 	anOut := map[int][]string{}
 	for i, r := range raceRuns {
